@@ -81,46 +81,41 @@ theorem toPoly_sem (ρ : String → ℝ) (hρ : AppModel ρ) (args : List Poly) 
 theorem specRules_noPowApp : ∀ e ∈ specRules, e.deriv.noPowApp = true := by decide
 
 /-- unary rows of the specification table are about `f(v₀)` -/
-theorem specRules_unary_fn : ∀ e ∈ specRules, e.arity = 1 → e.fn = .app1 e.name (.var 0) ∧ e.pos = 0 := by decide
+theorem specRules_unary_fn : ∀ e ∈ specRules, e.arity = 1 → e.fn = .app1 e.name (.var 0) ∧ e.pos = 0 := by
+  intro e he h1
+  simp only [specRules, List.mem_cons, List.mem_nil_iff, or_false] at he
+  rcases he with rfl | rfl | rfl | rfl | rfl | rfl | rfl | rfl | rfl | rfl | rfl | rfl | rfl | rfl | rfl | rfl | rfl | rfl | rfl | rfl | rfl | rfl | rfl | rfl | rfl | rfl | rfl | rfl | rfl | rfl | rfl | rfl | rfl | rfl | rfl <;> simp_all
 
-theorem specRule_mem {f : String} {n i : Nat} {r : SE} (h : specRule f n i = some r) (hf : f ∈ provedNames) :
-    ∃ e ∈ specRules, e.name = f ∧ e.arity = n ∧ e.pos = i ∧ e.deriv = r := by
-  unfold specRule at h
-  split at h
-  · rename_i e he
-    have hm := List.mem_of_find?_eq_some he
-    have hp := List.find?_some he
-    simp only [Bool.and_eq_true, beq_iff_eq] at hp
-    cases h
-    exact ⟨e, hm, hp.1.1, hp.1.2, hp.2, rfl⟩
-  · -- the sinc fallback: its names are not among the proved names
-    exfalso
-    split at h
-    · rename_i hc
-      simp only [Bool.and_eq_true, beq_iff_eq] at hc
-      have : f.startsWith "sinc" = true := hc.2
-      revert this
-      simp only [provedNames, List.mem_cons, List.mem_nil_iff, or_false] at hf
-      rcases hf with rfl | rfl | rfl | rfl | rfl | rfl | rfl | rfl | rfl | rfl | rfl | rfl | rfl | rfl | rfl | rfl | rfl | rfl | rfl |
-        rfl | rfl | rfl | rfl | rfl | rfl | rfl | rfl | rfl | rfl | rfl | rfl | rfl | rfl | rfl | rfl <;> decide
-    · cases h
+/-- the lookup `datom` performs: a row found in the table is the rule -/
+theorem specRule_of_find {f : String} {n i : Nat} {e : Entry}
+    (h : specRules.find? (fun e => e.name == f && e.arity == n && e.pos == i) = some e) : specRule f n i = some e.deriv := by
+  simp [specRule, h]
+
+theorem find_spec {f : String} {n i : Nat} {e : Entry}
+    (h : specRules.find? (fun e => e.name == f && e.arity == n && e.pos == i) = some e) :
+    e ∈ specRules ∧ e.name = f ∧ e.arity = n ∧ e.pos = i := by
+  have hm := List.mem_of_find?_eq_some h
+  have hp := List.find?_some h
+  simp only [Bool.and_eq_true, beq_iff_eq] at hp
+  exact ⟨hm, hp.1.1, hp.1.2, hp.2⟩
 
 /-- **Chain rule through a unary function atom** (the step of `datom`): if the atom `a` denotes `f` of the value of
 `q` along the curve, `q` moves with derivative `eval dq`, and the rule of `f` written in the carrier is `v`, then `a`
 moves with derivative `eval (v · dq)` — provided the point is in the claimed domain of `f`. -/
-theorem unary_atom_hasDerivAt (f : String) (r : SE) (q dq v : Poly) (ρ : ℝ → String → ℝ) (a : String) (t0 : ℝ)
-    (hr : specRule f 1 0 = some r) (hf : f ∈ provedNames) (hv : r.toPoly [q] = some v) (hρ : AppModel (ρ t0))
+theorem unary_atom_hasDerivAt (f : String) (e : Entry) (q dq v : Poly) (ρ : ℝ → String → ℝ) (a : String) (t0 : ℝ)
+    (hr : specRules.find? (fun e => e.name == f && e.arity == 1 && e.pos == 0) = some e) (hf : f ∈ provedNames)
+    (hv : e.deriv.toPoly [q] = some v) (hρ : AppModel (ρ t0))
     (ha : ∀ t, ρ t a = sem1 f (Poly.eval (ρ t) q))
     (hq : HasDerivAt (fun t => Poly.eval (ρ t) q) (Poly.eval (ρ t0) dq) t0)
     (hdom : Dom f 0 (fun i => Poly.eval (ρ t0) (([q] : List Poly)[i]?.getD Poly.zero))) :
     HasDerivAt (fun t => ρ t a) (Poly.eval (ρ t0) (v * dq)) t0 := by
-  obtain ⟨e, hm, hname, harity, hpos, hderiv⟩ := specRule_mem hr hf
+  obtain ⟨hm, hname, harity, hpos⟩ := find_spec hr
   have hfn := (specRules_unary_fn e hm harity).1
   have hsound := specRules_sound_proof e hm (hname ▸ hf) (fun i => Poly.eval (ρ t0) (([q] : List Poly)[i]?.getD Poly.zero))
     (by rw [hname, hpos]; exact hdom)
   unfold Entry.SoundAt at hsound
-  rw [hfn, hpos, hname, hderiv] at hsound
-  have hval := toPoly_sem (ρ t0) hρ [q] r v (hderiv ▸ specRules_noPowApp e hm) hv
+  rw [hfn, hpos, hname] at hsound
+  have hval := toPoly_sem (ρ t0) hρ [q] e.deriv v (specRules_noPowApp e hm) hv
   have houter : HasDerivAt (fun s => sem1 f s) (Poly.eval (ρ t0) v) (Poly.eval (ρ t0) q) := by
     have := hsound
     simp only [SE.sem, upd_same] at this
